@@ -6,6 +6,9 @@ import Spec.Frame
 -/
 namespace DV.Spec
 
+/-- IPv4-mapped IPv6 form of a 16-byte address -/
+def isV4Mapped (b : Bytes) : Bool := b.length = 16 ∧ b.take 12 = [0,0,0,0,0,0,0,0,0,0,255,255]
+
 /-- a payload is a well-formed value of data type `t` (RFC 6733 §4.2–4.4) -/
 def wfPayload (t : Nat) (p : Bytes) : Bool :=
   if t = T.enum ∨ t = T.f32 ∨ t = T.i32 ∨ t = T.u32 ∨ t = T.time ∨ t = T.ipv4 then p.length = 4
@@ -67,10 +70,47 @@ def wfWire (d : DictFn) (bs : Bytes) : Bool :=
     decide (h.len = bs.length) && cmdHasRules d h.app h.cmd h.flags && wfBody (d.avpType h.app) (bs.drop 20)
   | _ => false
 
-/-! API direction -/
+/-! ### wire direction without the three Address shapes of the known findings
 
-/-- IPv4-mapped IPv6 form of a 16-byte address -/
-def isV4Mapped (b : Bytes) : Bool := b.length = 16 ∧ b.take 12 = [0,0,0,0,0,0,0,0,0,0,255,255]
+  `datatype.Address` holds 4 raw octets for IPv4, 16 for IPv6 and family-prefixed octets for any
+  other family, and re-derives the form from the length alone. Three well-formed wire shapes are
+  therefore not reproduced (`C01_wire_counterexample_*`): family 2 holding an IPv4-mapped
+  address, and another family whose family-prefixed image is 4 or 16 octets long. -/
+
+/-- the Address payload is one of those three shapes -/
+def addrAmbiguous (p : Bytes) : Bool :=
+  let fam := rd (p.take 2)
+  (fam = 2 ∧ isV4Mapped (p.drop 2)) ∨ (fam ≠ 1 ∧ fam ≠ 2 ∧ (p.length = 4 ∨ p.length = 16))
+
+/-- well-formed payload that is not an ambiguous Address -/
+def wfPayloadX (t : Nat) (p : Bytes) : Bool :=
+  wfPayload t p && !(decide (t = T.address) && addrAmbiguous p)
+
+mutual
+def wfFrameX (ty : Nat → Nat → Nat) : Frame → Bool
+  | .leaf c _ _ v p => wfPayloadX (ty c v) p
+  | .group _ _ _ _ kids => wfFramesX ty kids
+def wfFramesX (ty : Nat → Nat → Nat) : List Frame → Bool
+  | [] => true
+  | f :: r => wfFrameX ty f && wfFramesX ty r
+end
+
+/-- `wfBody` with `wfPayloadX` at the leaves -/
+def wfBodyX (ty : Nat → Nat → Nat) (body : Bytes) : Bool :=
+  let isG : Nat → Nat → Bool := fun c v => ty c v = T.grouped
+  match frames isG (body.length + 1) body with
+  | .ok fs => wfFramesX ty fs && wfPadding isG (body.length + 1) body
+  | _ => false
+
+/-- `wfWire` with `wfBodyX` -/
+def wfWireX (d : DictFn) (bs : Bytes) : Bool :=
+  if bs.length < 20 then false else
+  match decodeHeader (bs.take 20) with
+  | .ok h =>
+    decide (h.len = bs.length) && cmdHasRules d h.app h.cmd h.flags && wfBodyX (d.avpType h.app) (bs.drop 20)
+  | _ => false
+
+/-! API direction -/
 
 mutual
 /-- value `v` is a valid value of dictionary type `t`, in the canonical form the decoder returns -/
